@@ -12,6 +12,7 @@ All statements are for certificate chains (and TSA revocation vectors) of any le
 -/
 import NotationModel.Model.C06
 import NotationModel.Props.C05
+import NotationModel.Generated.SrcC06
 set_option linter.unusedSimpArgs false
 set_option linter.unusedVariables false
 
@@ -87,7 +88,7 @@ theorem all_contains_iff (ws : List Window) (t : Int) :
   simp [List.all_eq_true, contains_iff]
 
 theorem performs_eq (i : Input) : performs i = tsApplies i := by
-  unfold performs tsApplies chainExpired
+  unfold performs performsWith tsApplies chainExpired
   rw [expiredLoop_eq]
   generalize (i.chain.any fun w => decide (w.notAfter < i.now)) = b
   cases i.tsaListed <;> cases i.option <;> cases b <;> rfl
@@ -111,7 +112,7 @@ theorem revFails_eq (n : Nat) (rs : List C05.R) :
     simp [this]
 
 theorem pipeline_eq (i : Input) : pipeline i = !(tokenGood i) := by
-  unfold pipeline tokenGood
+  unfold pipeline pipelineSteps Input.steps tokenGood
   cases i.token with
   | none => rfl
   | some k =>
@@ -126,7 +127,7 @@ theorem pipeline_eq (i : Input) : pipeline i = !(tokenGood i) := by
 /-- closed form of `verifyTimestamp` -/
 theorem verifyTimestamp_eq (i : Input) :
     verifyTimestamp i = if tsApplies i then !(tokenGood i) else !(i.chain.all (·.contains i.now)) := by
-  unfold verifyTimestamp
+  show (if !(performs i) then validNowLoop i.now i.chain else pipeline i) = _
   rw [performs_eq, pipeline_eq, validNowLoop_eq]
   cases tsApplies i <;> simp
 
@@ -164,7 +165,7 @@ theorem sa_pass_iff (i : Input) (hs : i.scheme = .signingAuthority) :
 /-- under notary.x509 the signed signing time plays no role -/
 theorem x509_ignores_signing_time (i : Input) (hs : i.scheme = .x509) (t : Int) :
     (run { i with signingTime := t }).authTsFailed = (run i).authTsFailed := by
-  simp [run, verifyAuthenticTimestamp, hs, verifyTimestamp, performs, pipeline]
+  simp [run, verifyAuthenticTimestamp, hs, verifyTimestamp, verifyTimestampWith, Input.steps]
 
 /-- when timestamp verification applies (`performTimestampVerification` stays true) -/
 theorem performs_iff (i : Input) :
@@ -430,5 +431,361 @@ example : Holds base (obs false false false) = false := by decide
 example : Holds base { obs true false false with tsaRevocationArgsOk := false } = false := by decide
 example : Holds base { obs true false false with signingRevocationArgsOk := false } = false := by decide
 example : Holds base (run base) = true := by decide
+
+/-! ### tie to the translated source
+
+`Generated/SrcC06.lean` is the Lean translation of `verifyExpiry`, `verifyAuthenticTimestamp` and `verifyTimestamp`
+(verifier/verifier.go), regenerated on every run by /verif/extract (go2lean). The theorems below say that the
+translated functions fail / pass exactly as the model's functions do, for all times and all oracle answers
+(Src/TypesC06.lean lists the oracles). The proofs never quote the generated text: loops are rewritten by the loop
+lemmas of this section, oracle answers are generalised to variables, early exits become Boolean disjunctions. -/
+
+namespace Tie
+open NotationModel.Src NotationModel.Src.verifier
+
+@[reducible] def expiryOf (t : time.Time) : Option Int := if t.ns = 0 then none else some t.ns
+@[reducible] def windowOf (c : c06.Certificate) : Window := ⟨c.NotBefore.ns, c.NotAfter.ns⟩
+@[reducible] def chainOf (o : c06.VerificationOutcome) : List Window := o.EnvelopeContent.SignerInfo.CertificateChain.map windowOf
+
+/-- TIE (translated source): `verifyExpiry`, regenerated from verifier/verifier.go on every run
+(`Generated/SrcC06.lean`), reports an error exactly when the model's `verifyExpiry` does - for every clock reading
+(the oracle `env.Now`) and every expiry, the zero time standing for "no expiry" -/
+theorem source_verifyExpiry_refines_model (env : Env) (o : c06.VerificationOutcome) :
+    (verifier.verifyExpiry env o).Error.isSome =
+      C06.verifyExpiry env.Now.ns (expiryOf o.EnvelopeContent.SignerInfo.SignedAttributes.Expiry) := by
+  unfold verifier.verifyExpiry C06.verifyExpiry expiryOf
+  simp only [Id.run, time.Time.IsZero, time.Time.Before]
+  by_cases hz : o.EnvelopeContent.SignerInfo.SignedAttributes.Expiry.ns = 0 <;>
+    by_cases hb : env.Now.ns < o.EnvelopeContent.SignerInfo.SignedAttributes.Expiry.ns <;>
+    simp [hz, hb, GoLite.idPure] <;> first | rfl | (exfalso; omega) | simp_all
+
+/-! loops of the translated text, whatever they return -/
+
+/-- `for _, a := range l { if p(a) { return v(a) } }` -/
+theorem forIn_ifStop {α ρ : Type} (l : List α) (p : α → Bool) (v : α → ρ) :
+    (forIn l ((none : Option ρ), ()) (fun a _ =>
+      if p a = true then (pure (ForInStep.done (some (v a), ())) : Id _) else pure (ForInStep.yield (none, ())))) =
+      pure ((l.find? p).map v, ()) := by
+  induction l with
+  | nil => simp
+  | cons a l ih =>
+    rw [List.forIn_cons]
+    by_cases h : p a = true
+    · simp [h]
+    · simp [h, ih]
+
+/-- `for _, a := range l { if p(a) { return v(a) }; if q(a) { return w(a) } }` -/
+theorem forIn_ifStop2 {α ρ : Type} (l : List α) (p q : α → Bool) (v w : α → ρ) :
+    (forIn l ((none : Option ρ), ()) (fun a _ =>
+      if p a = true then (pure (ForInStep.done (some (v a), ())) : Id _)
+      else if q a = true then pure (ForInStep.done (some (w a), ())) else pure (ForInStep.yield (none, ())))) =
+      pure ((l.find? (fun a => p a || q a)).map (fun a => if p a then v a else w a), ()) := by
+  induction l with
+  | nil => simp
+  | cons a l ih =>
+    rw [List.forIn_cons]
+    by_cases h : p a = true
+    · simp [h]
+    · by_cases h2 : q a = true
+      · simp [h, h2]
+      · simp [h, h2, ih]
+
+/-- `for _, a := range l { if p(a) { flag = true; break } }` -/
+theorem forIn_anyBreak {α : Type} (l : List α) (p : α → Bool) (b : Bool) :
+    (forIn l b (fun a r => if p a = true then (pure (ForInStep.done true) : Id _) else pure (ForInStep.yield r))) =
+      pure (l.any p || b) := by
+  induction l generalizing b with
+  | nil => simp
+  | cons a l ih =>
+    rw [List.forIn_cons]
+    by_cases h : p a = true
+    · simp [h]
+    · simp [h, ih]
+
+/-- pointwise equality of two Boolean tests built from integer comparisons (whatever way the source spells them) -/
+macro "bool_arith" : tactic => `(tactic|
+  (intro c; first
+    | rfl
+    | (rw [Bool.eq_iff_iff]; simp; done)
+    | (rw [Bool.eq_iff_iff]; simp; omega)))
+
+theorem saLoop_of_find {t : Int} {l : List c06.Certificate} {P : c06.Certificate → Bool} {x : Option c06.Certificate}
+    (h : l.find? P = x) (hP : ∀ c, P c = (decide (t < c.NotBefore.ns) || decide (t > c.NotAfter.ns))) :
+    saLoop t (l.map windowOf) = x.isSome := by
+  subst h
+  have : P = fun c => (decide (t < c.NotBefore.ns) || decide (t > c.NotAfter.ns)) := funext hP
+  subst this
+  induction l with
+  | nil => rfl
+  | cons c l ih =>
+    simp only [List.map_cons, saLoop, List.find?_cons]
+    by_cases h : (decide (t < c.NotBefore.ns) || decide (t > c.NotAfter.ns)) = true
+    · simp [h]
+    · simp only [h]; simpa [windowOf] using ih
+
+/-- TIE: under any scheme but notary.x509 the translated `verifyAuthenticTimestamp` fails exactly when the model's
+signing-authority loop does: some certificate's window does not contain the authentic signing time -/
+theorem source_verifyAuthenticTimestamp_signingAuthority_refines_model (env : Env) (pn : String) (ts : List String) (sv : c06.SignatureVerification)
+    (st : truststore.X509TrustStore) (r : revocation.Validator) (o : c06.VerificationOutcome)
+    (hs : o.EnvelopeContent.SignerInfo.SignedAttributes.SigningScheme ≠ signature.SigningSchemeX509) :
+    (verifier.verifyAuthenticTimestamp env pn ts sv st r o).Error.isSome =
+      saLoop o.EnvelopeContent.SignerInfo.SignedAttributes.SigningTime.ns (chainOf o) := by
+  unfold verifier.verifyAuthenticTimestamp
+  simp only [Id.run]
+  rw [forIn_ifStop]
+  have hs' : (o.EnvelopeContent.SignerInfo.SignedAttributes.SigningScheme == signature.SigningSchemeX509) = false := by
+    simpa using hs
+  simp only [hs', Bool.false_eq_true, if_false]
+  cases hF : List.find? _ o.EnvelopeContent.SignerInfo.CertificateChain <;>
+    rw [saLoop_of_find hF (by bool_arith)] <;> simp [GoLite.idPure, GoLite.idBind, bind] <;> rfl
+
+/-- `for _, a := range l { if p(a) { flag = true } }` (the same without `break`) -/
+theorem forIn_anyFlag {α : Type} (l : List α) (p : α → Bool) (b : Bool) :
+    (forIn l b (fun a r => if p a = true then (pure (ForInStep.yield true) : Id _) else pure (ForInStep.yield r))) =
+      pure (l.any p || b) := by
+  induction l generalizing b with
+  | nil => simp
+  | cons a l ih =>
+    rw [List.forIn_cons]
+    by_cases h : p a = true
+    · simp [h, ih]
+    · simp [h, ih]
+
+theorem foldl_AddCert (l : List x509.Certificate) (p : x509.CertPool) :
+    List.foldl (fun b a => b.AddCert a) p l = ⟨p.certs ++ l⟩ := by
+  induction l generalizing p with
+  | nil => simp
+  | cons a l ih => simp only [List.foldl_cons]; rw [ih]; simp [x509.CertPool.AddCert]
+
+theorem expiredLoop_of_any {now : Int} {l : List c06.Certificate} {P : c06.Certificate → Bool} {b : Bool}
+    (h : l.any P = b) (hP : ∀ c, P c = decide (now > c.NotAfter.ns)) : expiredLoop now (l.map windowOf) = b := by
+  subst h
+  have : P = fun c => decide (now > c.NotAfter.ns) := funext hP
+  subst this
+  induction l with
+  | nil => rfl
+  | cons c l ih =>
+    simp only [List.map_cons, expiredLoop, List.any_cons]
+    by_cases h : now > c.NotAfter.ns <;> simp [h, windowOf] <;> simpa [windowOf] using ih
+
+theorem validNowLoop_of_find {now : Int} {l : List c06.Certificate} {P : c06.Certificate → Bool} {x : Option c06.Certificate}
+    (h : l.find? P = x) (hP : ∀ c, P c = (decide (now < c.NotBefore.ns) || decide (now > c.NotAfter.ns))) :
+    validNowLoop now (l.map windowOf) = x.isSome := by
+  subst h
+  have : P = fun c => (decide (now < c.NotBefore.ns) || decide (now > c.NotAfter.ns)) := funext hP
+  subst this
+  induction l with
+  | nil => rfl
+  | cons c l ih =>
+    simp only [List.map_cons, validNowLoop, List.find?_cons]
+    by_cases h1 : now < c.NotBefore.ns <;> by_cases h2 : now > c.NotAfter.ns <;> simp [h1, h2, windowOf] <;>
+      simpa [windowOf] using ih
+
+theorem rangeLoop_of_find {t acc : Int} {l : List c06.Certificate} {P : c06.Certificate → Bool} {x : Option c06.Certificate}
+    (h : l.find? P = x)
+    (hP : ∀ c, P c = (!(decide (t - acc ≥ c.NotBefore.ns)) || !(decide (t + acc ≤ c.NotAfter.ns)))) :
+    rangeLoop t acc (l.map windowOf) = x.isSome := by
+  subst h
+  have : P = fun c => (!(decide (t - acc ≥ c.NotBefore.ns)) || !(decide (t + acc ≤ c.NotAfter.ns))) := funext hP
+  subst this
+  induction l with
+  | nil => rfl
+  | cons c l ih =>
+    simp only [List.map_cons, rangeLoop, List.find?_cons]
+    by_cases h1 : t - acc ≥ c.NotBefore.ns <;> by_cases h2 : t + acc ≤ c.NotAfter.ns <;> simp [h1, h2, windowOf] <;>
+      simpa [windowOf] using ih
+
+@[reducible] def optionOf (s : trustpolicy.TimestampOption) : TsOption :=
+  if s = trustpolicy.OptionAfterCertExpiry then .afterCertExpiry
+  else if s = trustpolicy.OptionAlways then .always else .unset
+
+@[reducible] def stepsOf (env : Env) (pn : String) (ts : List String) (st : truststore.X509TrustStore) (r : revocation.Validator)
+    (o : c06.VerificationOutcome) : Steps :=
+  let si := o.EnvelopeContent.SignerInfo
+  let p := env.ParseSignedToken si.UnsignedAttributes.TimestampSignature
+  let inf := p.1.Info
+  let v := inf.1.Validate si.Signature
+  let ld := env.loadX509TSATrustStores si.SignedAttributes.SigningScheme pn ts st
+  let vf := p.1.Verify { CurrentTime := v.1.Value, Roots := ⟨ld.1⟩ }
+  let rv := r.ValidateContext { CertChain := vf.1 }
+  { present := si.UnsignedAttributes.TimestampSignature.length != 0,
+    parses := p.2.isNone && inf.2.isNone, imprintMatches := v.2.isNone, storesLoad := ld.2.isNone,
+    storesNonEmpty := ld.1.length != 0, tokenVerifies := vf.2.isNone,
+    chainRulesOk := (env.ValidateTimestampingCertChain vf.1).isNone,
+    genTime := v.1.Value.ns, acc := v.1.Accuracy, revocationError := rv.2.isSome,
+    revocation := rv.1.map (fun c => C05.Tie.toR c.Result), tsaChainLen := vf.1.length }
+
+theorem isSome_ite_some {β : Type} (c : Prop) [Decidable c] (x : β) (y : Option β) :
+    (if c then some x else y).isSome = (decide c || y.isSome) := by
+  by_cases h : c <;> simp [h]
+theorem isSome_ite_some_id {β : Type} (c : Prop) [Decidable c] (x : β) (y : Id (Option β)) :
+    Option.isSome (@ite (Id (Option β)) c _ (some x) y) = (decide c || Option.isSome y) := by
+  by_cases h : c <;> simp [h]
+theorem isSome_ite_none_id {β : Type} (c : Prop) [Decidable c] (y : Id (Option β)) :
+    Option.isSome (@ite (Id (Option β)) c _ none y) = (!decide c && Option.isSome y) := by
+  by_cases h : c <;> simp [h]
+theorem zero_eq_len {α : Type} (l : List α) : ((0 : Int) = (l.length : Int)) = (l = []) := by
+  cases l <;> simp <;> omega
+theorem if_true_or (c : Prop) [Decidable c] (b : Bool) : (if c then true else b) = (decide c || b) := by
+  by_cases h : c <;> simp [h]
+
+/- closes a goal `isSome (steps 1-5 of the translated text) = pipelineSteps ..` once the oracle answers are the
+variables `eP eI eV eL certs eVF RU eRV tchain res tsv` (names of the tie proof, not of the generated text): the
+early exits become a Boolean disjunction on both sides, which is then compared case by case -/
+set_option hygiene false in
+macro "pipeline_leaf" : tactic => `(tactic|
+  (cases hfind : List.find? _ o.EnvelopeContent.SignerInfo.CertificateChain <;>
+   rw [rangeLoop_of_find hfind (by bool_arith)] <;>
+   simp only [Option.map_none, Option.map_some, isSome_ite_some, isSome_ite_some_id, isSome_ite_none_id, if_true_or,
+     Option.isSome_none, Option.isSome_some, Bool.or_false, Bool.or_true] <;>
+   generalize (C05.revocationFinalFor tchain.length _).fst = fin <;>
+   cases fin <;> cases eP <;> cases eI <;> cases eV <;> cases eL <;> cases eVF <;> cases RU <;> cases eRV <;>
+     first
+     | (simp [GoLite.len, C05.Tie.ofFinal]; done)
+     | (simp [GoLite.len, C05.Tie.ofFinal, zero_eq_len]; done)
+     | (simp [GoLite.len, C05.Tie.ofFinal, zero_eq_len]; omega)))
+
+/- the same for the leaf that ends in the valid-now loop -/
+set_option hygiene false in
+macro "validnow_leaf" : tactic => `(tactic|
+  (cases hfind : List.find? _ o.EnvelopeContent.SignerInfo.CertificateChain <;>
+   rw [validNowLoop_of_find hfind (by bool_arith)] <;> simp <;> (try split) <;> simp))
+
+/-- TIE: the translated `verifyTimestamp` returns an error exactly when the model's `verifyTimestampWith` says so -
+for EVERY clock reading and EVERY answer of the oracles (trust store listing and loading, token parsing, TSTInfo,
+message imprint, token verification against the pool made of exactly the loaded certificates at the token's time,
+certificate rules, revocation validator asked about exactly the verified TSA chain with no authentic signing time);
+a malformed trust store list (the listing oracle's error) is an error -/
+theorem source_verifyTimestamp_refines_model (env : Env) (pn : String) (ts : List String) (sv : c06.SignatureVerification)
+    (st : truststore.X509TrustStore) (r : revocation.Validator) (o : c06.VerificationOutcome) :
+    (verifier.verifyTimestamp env pn ts sv st r o).isSome =
+      match env.isTSATrustStoreInPolicy pn ts with
+      | (_, some _) => true
+      | (tsaListed, none) =>
+        verifyTimestampWith env.Now.ns (chainOf o) tsaListed (optionOf sv.VerifyTimestamp) (stepsOf env pn ts st r o) := by
+  unfold verifier.verifyTimestamp
+  simp only [Id.run, forIn_ifStop2, forIn_anyBreak, forIn_anyFlag, List.forIn_pure_yield_eq_foldl]
+  simp only [stepsOf, foldl_AddCert, List.nil_append,
+    C05.Tie.source_revocationFinalResult_refines_model, verifyTimestampWith, performsWith, pipelineSteps,
+    tsaRevocationFails]
+  obtain ⟨q0, hq0⟩ : ∃ q, q = env.isTSATrustStoreInPolicy pn ts := ⟨_, rfl⟩
+  obtain ⟨P, hP⟩ : ∃ q, q = env.ParseSignedToken o.EnvelopeContent.SignerInfo.UnsignedAttributes.TimestampSignature := ⟨_, rfl⟩
+  obtain ⟨L, hL⟩ : ∃ q, q = env.loadX509TSATrustStores o.EnvelopeContent.SignerInfo.SignedAttributes.SigningScheme pn ts st := ⟨_, rfl⟩
+  simp only [← hq0, ← hP, ← hL]
+  clear hq0 hP hL
+  obtain ⟨I, hI⟩ : ∃ q, q = P.1.Info := ⟨_, rfl⟩
+  simp only [← hI]
+  obtain ⟨V, hV⟩ : ∃ q, q = I.1.Validate o.EnvelopeContent.SignerInfo.Signature := ⟨_, rfl⟩
+  simp only [← hV]
+  clear hI hV
+  obtain ⟨listed, e0⟩ := q0
+  obtain ⟨tok, eP⟩ := P
+  obtain ⟨inf, eI⟩ := I
+  obtain ⟨tsv, eV⟩ := V
+  obtain ⟨certs, eL⟩ := L
+  simp only [GoLite.idPure, GoLite.idBind, bind, pure]
+  generalize tok.Verify { CurrentTime := tsv.Value, Roots := ⟨certs⟩ } = VF
+  obtain ⟨tchain, eVF⟩ := VF
+  simp only []
+  generalize env.ValidateTimestampingCertChain tchain = RU
+  generalize r.ValidateContext { CertChain := tchain } = RV
+  obtain ⟨res, eRV⟩ := RV
+  simp only [GoLite.idPure, GoLite.idBind, bind, pure]
+  cases e0 with
+  | some e => simp
+  | none =>
+    have hd : (default : Bool) = false := rfl
+    simp only [Option.isSome_none, Bool.false_eq_true, if_false, hd, Bool.or_false]
+    cases listed with
+    | false =>
+      simp only [Bool.not_false, if_true, Bool.false_and, Bool.false_eq_true, if_false, optionOf]
+      validnow_leaf
+    | true =>
+      simp only [Bool.not_true, Bool.false_eq_true, if_false, Bool.true_and, Bool.not_false, if_true]
+      by_cases hopt : sv.VerifyTimestamp = trustpolicy.OptionAfterCertExpiry
+      · have hopt' : (sv.VerifyTimestamp == trustpolicy.OptionAfterCertExpiry) = true := by simpa using hopt
+        have hm : (optionOf sv.VerifyTimestamp == TsOption.afterCertExpiry) = true := by
+          unfold optionOf; simp only [hopt, if_true]; decide
+        simp only [hopt', hm, if_true]
+        cases hexp : List.any o.EnvelopeContent.SignerInfo.CertificateChain _
+        · rw [expiredLoop_of_any hexp (by bool_arith)]
+          simp only [Bool.not_false, if_true]
+          validnow_leaf
+        · rw [expiredLoop_of_any hexp (by bool_arith)]
+          simp only [Bool.not_true, Bool.false_eq_true, if_false, Bool.not_false, if_true]
+          pipeline_leaf
+      · have hopt' : (sv.VerifyTimestamp == trustpolicy.OptionAfterCertExpiry) = false := by simpa using hopt
+        have hm : (optionOf sv.VerifyTimestamp == TsOption.afterCertExpiry) = false := by
+          unfold optionOf; simp only [hopt, if_false]; split <;> decide
+        simp only [hopt', hm, Bool.false_eq_true, if_false, Bool.not_true]
+        pipeline_leaf
+
+/-- TIE: under notary.x509 the result of `verifyAuthenticTimestamp` carries the error of `verifyTimestamp` -/
+theorem source_verifyAuthenticTimestamp_x509_refines_model (env : Env) (pn : String) (ts : List String)
+    (sv : c06.SignatureVerification) (st : truststore.X509TrustStore) (r : revocation.Validator) (o : c06.VerificationOutcome)
+    (hs : o.EnvelopeContent.SignerInfo.SignedAttributes.SigningScheme = signature.SigningSchemeX509) :
+    (verifier.verifyAuthenticTimestamp env pn ts sv st r o).Error = verifier.verifyTimestamp env pn ts sv st r o := by
+  unfold verifier.verifyAuthenticTimestamp
+  simp only [Id.run]
+  have hs' : (o.EnvelopeContent.SignerInfo.SignedAttributes.SigningScheme == signature.SigningSchemeX509) = true := by
+    simpa using hs
+  simp only [hs', if_true]
+  rfl
+
+/-- the scheme split, both halves together, in the model's terms -/
+theorem source_verifyAuthenticTimestamp_refines_model (env : Env) (pn : String) (ts : List String)
+    (sv : c06.SignatureVerification) (st : truststore.X509TrustStore) (r : revocation.Validator) (o : c06.VerificationOutcome) :
+    (verifier.verifyAuthenticTimestamp env pn ts sv st r o).Error.isSome =
+      if o.EnvelopeContent.SignerInfo.SignedAttributes.SigningScheme = signature.SigningSchemeX509 then
+        match env.isTSATrustStoreInPolicy pn ts with
+        | (_, some _) => true
+        | (tsaListed, none) =>
+          verifyTimestampWith env.Now.ns (chainOf o) tsaListed (optionOf sv.VerifyTimestamp) (stepsOf env pn ts st r o)
+      else saLoop o.EnvelopeContent.SignerInfo.SignedAttributes.SigningTime.ns (chainOf o) := by
+  by_cases hs : o.EnvelopeContent.SignerInfo.SignedAttributes.SigningScheme = signature.SigningSchemeX509
+  · rw [source_verifyAuthenticTimestamp_x509_refines_model env pn ts sv st r o hs, source_verifyTimestamp_refines_model, if_pos hs]
+  · rw [source_verifyAuthenticTimestamp_signingAuthority_refines_model env pn ts sv st r o hs, if_neg hs]
+
+/-! non-vacuity: the translated functions on concrete inputs -/
+
+private def lvl : trustpolicy.VerificationLevel := trustpolicy.LevelStrict
+private def cert (nb na : Int) : c06.Certificate := ⟨⟨"c"⟩, ⟨nb⟩, ⟨na⟩⟩
+private def outcomeOf (scheme : String) (signing expiry : Int) (chain : List c06.Certificate) (token : Bytes) :
+    c06.VerificationOutcome :=
+  ⟨⟨⟨⟨scheme, ⟨signing⟩, ⟨expiry⟩⟩, ⟨token⟩, chain, [1, 2, 3]⟩⟩, lvl⟩
+/-- a TSA whose token verifies to a two-certificate chain at time 50, accuracy 1, under the root it is given -/
+private def tokenOk : tspclient.SignedToken :=
+  { info := (⟨fun m => (⟨⟨50⟩, 1⟩, if m = [1, 2, 3] then none else some ⟨"mismatch"⟩)⟩, none),
+    verify := fun o => ([⟨⟨"tsa"⟩⟩, ⟨⟨"tsa root"⟩⟩], if o.Roots.certs = [⟨⟨"tsa root"⟩⟩] ∧ o.CurrentTime = ⟨50⟩ then none else some ⟨"untrusted"⟩) }
+private def envAt (now : Int) (listed : Bool) : Env :=
+  { Now := ⟨now⟩, isTSATrustStoreInPolicy := fun _ _ => (listed, none),
+    loadX509TSATrustStores := fun _ _ _ _ => ([⟨⟨"tsa root"⟩⟩], none),
+    ParseSignedToken := fun _ => (tokenOk, none), ValidateTimestampingCertChain := fun _ => none }
+private def allOk : revocation.Validator :=
+  ⟨fun o => (o.CertChain.map fun _ => ⟨.ResultOK, [], .RevocationMethodUnknown⟩, none)⟩
+private def leafRevoked : revocation.Validator :=
+  ⟨fun _ => ([⟨.ResultRevoked, [], .RevocationMethodCRL⟩, ⟨.ResultOK, [], .RevocationMethodUnknown⟩], none)⟩
+private def x509 := signature.SigningSchemeX509
+
+-- expiry: equal to the clock fails, one nanosecond later passes, absent passes
+example : (verifier.verifyExpiry (envAt 100 false) (outcomeOf x509 10 100 [] [])).Error.isSome = true := by decide
+example : (verifier.verifyExpiry (envAt 100 false) (outcomeOf x509 10 101 [] [])).Error.isSome = false := by decide
+example : (verifier.verifyExpiry (envAt 100 false) (outcomeOf x509 10 0 [] [])).Error.isSome = false := by decide
+-- signing authority: the signing time against the windows, ends included
+example : (verifier.verifyAuthenticTimestamp (envAt 1000 false) "p" [] ⟨""⟩ ⟨0⟩ allOk
+    (outcomeOf "notary.x509.signingAuthority" 200 0 [cert 1 200, cert 200 300] [])).Error.isSome = false := by decide
+example : (verifier.verifyAuthenticTimestamp (envAt 100 false) "p" [] ⟨""⟩ ⟨0⟩ allOk
+    (outcomeOf "notary.x509.signingAuthority" 201 0 [cert 1 200, cert 200 300] [])).Error.isSome = true := by decide
+-- x509, no tsa store: valid now or not
+example : (verifier.verifyTimestamp (envAt 100 false) "p" [] ⟨"always"⟩ ⟨0⟩ allOk (outcomeOf x509 10 0 [cert 1 100] [])).isSome = false := by decide
+example : (verifier.verifyTimestamp (envAt 101 false) "p" [] ⟨"always"⟩ ⟨0⟩ allOk (outcomeOf x509 10 0 [cert 1 100] [])).isSome = true := by decide
+-- x509, tsa store listed: an expired chain passes with a good countersignature inside the window, fails when the
+-- range touches outside, when the TSA certificate is revoked, and without countersignature
+example : (verifier.verifyTimestamp (envAt 500 true) "p" [] ⟨"afterCertExpiry"⟩ ⟨0⟩ allOk (outcomeOf x509 10 0 [cert 49 51] [7])).isSome = false := by decide
+example : (verifier.verifyTimestamp (envAt 500 true) "p" [] ⟨"afterCertExpiry"⟩ ⟨0⟩ allOk (outcomeOf x509 10 0 [cert 50 51] [7])).isSome = true := by decide
+example : (verifier.verifyTimestamp (envAt 500 true) "p" [] ⟨"always"⟩ ⟨0⟩ leafRevoked (outcomeOf x509 10 0 [cert 49 51] [7])).isSome = true := by decide
+example : (verifier.verifyTimestamp (envAt 50 true) "p" [] ⟨""⟩ ⟨0⟩ allOk (outcomeOf x509 10 0 [cert 49 51] [])).isSome = true := by decide
+
+end Tie
 
 end NotationModel.C06
